@@ -447,6 +447,12 @@ def Full.step (f : Full) (line : String) : Full :=
   | "eread" => let (w, ew) := onERead (bump f.w) f.ew toks; { f with w := w, ew := ew }
   | "efinal" => let (w, ew) := onEFinal (bump f.w) f.ew toks; { f with w := w, ew := ew }
   | "eclosed" => { f with w := onEClosed (bump f.w) toks }
+  | "ewedge" =>
+    let w := bump f.w
+    let wedged := parseInt (arg toks "wedged")
+    let lost := parseInt (arg toks "lost")
+    let w := if wedged > 0 then w.fail "C16" "wedge" s!"in {wedged} of {arg toks "trials"} trials an Emit never returned after a legacy subscriber unsubscribed: the bus is wedged, every later event is lost for every subscriber" else w
+    { f with w := if lost > 0 then w.fail "C16" "loss" s!"in {lost} of {arg toks "trials"} trials the remaining legacy subscriber did not receive every event after the other one unsubscribed" else w }
   | "event" => let (w, ew) := onEvent (bump f.w) f.ew toks; { f with w := w, ew := ew }
   | "op" =>
     let f := if toks.getD 1 "" == "evwatch" then { f with watched := peerNum (toks.getD 2 "") :: f.watched } else f
